@@ -298,6 +298,7 @@ def build_pool(cs, ctx):
 
 
 KNOWN_HITS = []      # known-finding signatures met during the current call
+_RO_CACHE = {}
 
 
 def catalogue():
@@ -617,27 +618,36 @@ def catalogue():
                     return
         else:
             # a read-only memory map: writing into it kills the process, so
-            # the call is made in a forked copy of this one
-            import tempfile
-            fd, fn = tempfile.mkstemp(prefix="hyverif-rodate-", dir="/dev/shm")
-            os.write(fd, base.tobytes())
-            os.close(fd)
-            pid = os.fork()
-            if pid == 0:
+            # the call is made in a fresh interpreter (once per process: the
+            # outcome does not depend on the drawn date)
+            if "memmap" not in _RO_CACHE:
+                import subprocess
+                import sys
+                import tempfile
+                fd, fn = tempfile.mkstemp(prefix="hyverif-rodate-",
+                                          dir="/dev/shm")
+                os.write(fd, np.array([2001, 3, 15], dtype=np.int32).tobytes())
+                os.close(fd)
+                script = (
+                    "import sys, numpy as np\n"
+                    f"sys.path[:0] = {[p for p in sys.path if p]!r}\n"
+                    "import c_hydrodiy_data as chd\n"
+                    f"mm = np.memmap({fn!r}, dtype=np.int32, mode='r', "
+                    "shape=(3,))\n"
+                    "try:\n    chd.add1day(mm)\nexcept Exception:\n"
+                    "    sys.exit(0)\n"
+                    "sys.exit(0 if list(mm) == [2001, 3, 15] else 7)\n")
                 try:
-                    dn = os.open(os.devnull, os.O_WRONLY)
-                    os.dup2(dn, 2)
-                    mm = np.memmap(fn, dtype=np.int32, mode="r", shape=(3,))
-                    try:
-                        chd.add1day(mm)
-                    except Exception:
-                        os._exit(0)
-                    os._exit(0 if np.array_equal(np.asarray(mm), base) else 7)
-                finally:
-                    os._exit(9)
-            _, status = os.waitpid(pid, 0)
-            os.unlink(fn)
-            if os.WIFSIGNALED(status) or os.WEXITSTATUS(status) == 7:
+                    r = subprocess.run([sys.executable, "-c", script],
+                                       stdin=subprocess.DEVNULL,
+                                       stdout=subprocess.DEVNULL,
+                                       stderr=subprocess.DEVNULL, timeout=120)
+                    _RO_CACHE["memmap"] = r.returncode < 0 or \
+                        r.returncode == 7
+                except subprocess.TimeoutExpired:
+                    _RO_CACHE["memmap"] = False
+                os.unlink(fn)
+            if _RO_CACHE["memmap"]:
                 KNOWN_HITS.append("C05/date_helpers_write_readonly_buffer")
 
     def dates(a, o):
